@@ -4,6 +4,8 @@ import (
 	"bytes"
 	"context"
 	"fmt"
+	"google.golang.org/grpc"
+	"google.golang.org/grpc/status"
 	"io"
 	"net/http"
 	"net/http/httptest"
@@ -78,8 +80,8 @@ func c19Values(bigBody bool) []*env.Rpc {
 	// envelopes of a newer peer: fields this build does not know (top level and in a
 	// sub-message) are part of what was written and must come out the other end
 	for i, unk := range [][]byte{
-		{0x78, 0x2a},                                  // field 15, varint 42
-		{0xa2, 0x06, 0x03, 'n', 'e', 'w'},             // field 100, bytes "new"
+		{0x78, 0x2a},                                     // field 15, varint 42
+		{0xa2, 0x06, 0x03, 'n', 'e', 'w'},                // field 100, bytes "new"
 		{0x78, 0x01, 0xa2, 0x06, 0x00, 0xf8, 0x3f, 0x7f}, // three unknown fields
 	} {
 		r := &env.Rpc{Id: uint64(900 + i), Header: &goatorepo.RequestHeader{Method: "/s/new", Source: "srcnew", Destination: "d"}, Body: &goatorepo.Body{Data: []byte("x")}}
@@ -102,8 +104,8 @@ func c19(tier string) []*explore.Scenario {
 	for _, cp := range []int{0, 1, 2} {
 		out = append(out, c19Channel(cp, bound))
 	}
-	out = append(out, c19ChannelCtx(), c19HTTPShapes(), c19HTTPDuplex(), c19HTTPCtx(), c19HTTPWriteCtx(), c19HTTPRaw(), c19HTTPMapper())
-	for _, pending := range []string{"sender", "reader", "both", "none", "reader-after-abandoned-read"} {
+	out = append(out, c19ChannelCtx(), c19HTTPShapes(), c19HTTPDuplex(), c19HTTPCtx(), c19HTTPWriteCtx(), c19HTTPRaw(), c19HTTPMapper(), c19HTTPResponseLost(), c19HTTPResetAcrossTimeout())
+	for _, pending := range []string{"sender", "reader", "both", "none", "reader-after-abandoned-read", "write-in-flight-at-tick"} {
 		out = append(out, c19HTTPIdle(pending, bound))
 	}
 	out = append(out, c19HTTPTickVsRegistration(bound))
@@ -189,16 +191,45 @@ func c19ChannelCtx() *explore.Scenario {
 
 // ---------------------------------------------------------------- HTTP
 
-type c19RT struct{ hosts map[string]http.Handler }
+// c19RT is an in-process stand-in for net/http's transport + server: the
+// request is served by the destination's handler in a goroutine of its own
+// (the "server side"); the client gives up when its request context ends, and
+// the server-side request context ends then too, as it does when a client
+// connection goes away. Fault modes: failAfterDelivery makes the n-th round trip
+// report an error to the client AFTER the handler has completed (the response
+// is lost on the way back).
+type c19RT struct {
+	hosts             map[string]http.Handler
+	n                 int
+	failAfterDelivery map[int]bool
+}
 
 func (rt *c19RT) RoundTrip(req *http.Request) (*http.Response, error) {
 	h := rt.hosts[req.URL.Host]
 	if h == nil {
 		return nil, fmt.Errorf("no route to host %q", req.URL.Host)
 	}
-	rec := httptest.NewRecorder()
-	h.ServeHTTP(rec, req)
-	return rec.Result(), nil
+	k := rt.n
+	rt.n++
+	sctx, scancel := context.WithCancel(context.Background())
+	sreq := req.Clone(sctx)
+	done := make(chan *http.Response, 1)
+	vsched.GoNamed("http-serve", func() {
+		rec := httptest.NewRecorder()
+		h.ServeHTTP(rec, sreq)
+		done <- rec.Result()
+	})
+	select {
+	case resp := <-done:
+		scancel()
+		if rt.failAfterDelivery[k] {
+			return nil, fmt.Errorf("connection reset while reading the response")
+		}
+		return resp, nil
+	case <-req.Context().Done():
+		scancel()
+		return nil, req.Context().Err()
+	}
 }
 
 func post(h http.Handler, body io.Reader) int {
@@ -228,7 +259,9 @@ func c19HTTPShapes() *explore.Scenario {
 			vsched.Settle()
 			vsched.Explore(true)
 			enc := func(r *env.Rpc) io.Reader { b, _ := proto.Marshal(r); return bytes.NewReader(b) }
-			hdr := func(src string) *goatorepo.RequestHeader { return &goatorepo.RequestHeader{Method: "/a/B", Source: src, Destination: "d"} }
+			hdr := func(src string) *goatorepo.RequestHeader {
+				return &goatorepo.RequestHeader{Method: "/a/B", Source: src, Destination: "d"}
+			}
 			bad := []struct {
 				name string
 				body io.Reader
@@ -575,6 +608,141 @@ func c19HTTPTickVsRegistration(bound int) *explore.Scenario {
 	}
 }
 
+// c19HTTPResponseLost: a streaming RPC over the HTTP transport; for one POST
+// the handler side receives the envelope but the response is lost on the way
+// back, so the sender's Write reports an error. Whatever the sender does about
+// it, no envelope is delivered twice.
+func c19HTTPResponseLost() *explore.Scenario { return httpResponseLost("C19") }
+
+func httpResponseLost(prop string) *explore.Scenario {
+	fam := prop + "/http"
+	return &explore.Scenario{
+		Name: prop + "/http/response-lost", Family: fam, Prop: prop, Bound: 1,
+		Run: func() {
+			old := http.DefaultTransport
+			rt := &c19RT{hosts: map[string]http.Handler{}, failAfterDelivery: map[int]bool{}}
+			http.DefaultTransport = rt
+			defer func() { http.DefaultTransport = old }()
+			var got []uint64
+			ident := func(s string) (string, error) { return s, nil }
+			y := goat.NewGoatOverHttp(func(id string, rw goat.RpcReadWriter) {
+				vsched.GoNamed("reader-"+id, func() {
+					for {
+						r, err := rw.Read(context.Background())
+						if err != nil {
+							return
+						}
+						got = append(got, r.Id)
+					}
+				})
+			}, ident, goat.WithClock(env.NewClock()))
+			x := goat.NewGoatOverHttp(func(id string, rw goat.RpcReadWriter) {}, ident, goat.WithClock(env.NewClock()))
+			rt.hosts["cli"], rt.hosts["srv"] = x, y
+			conn := x.NewConnection("srv")
+			vsched.Settle()
+			vsched.Explore(true)
+			rt.failAfterDelivery[rt.n+2] = true // the third envelope's response is lost
+			var errs []bool
+			for id := uint64(1); id <= 5; id++ {
+				err := conn.Write(context.Background(), &env.Rpc{Id: id, Header: &goatorepo.RequestHeader{Method: "/a/B", Source: "cli", Destination: "srv"}})
+				errs = append(errs, err != nil)
+				if err != nil {
+					conn = x.NewConnection("srv") // the failed connection was unregistered: carry on with a fresh one
+				}
+			}
+			vsched.Quiesce()
+			vsched.Obs("write errors=%v delivered=%v", errs, got)
+			seen := map[uint64]int{}
+			for _, id := range got {
+				seen[id]++
+				if seen[id] > 1 {
+					vsched.Fail(fam+"|altered-or-reordered", "the response to the POST carrying envelope 3 was lost; the reader received %v: envelope %d arrived twice", got, id)
+				}
+			}
+			if !errs[2] {
+				vsched.Fail(fam+"|write-error-swallowed", "the POST carrying envelope 3 failed on the way back, but Write reported success (errors %v)", errs)
+			}
+			x.Cancel()
+			y.Cancel()
+			vsched.Quiesce()
+		},
+	}
+}
+
+// c19HTTPResetAcrossTimeout: the RPC layer over the HTTP transport. A bidi
+// handler is not reading while its caller has sent two messages (the server's
+// read loop is parked, and so are further POSTs), the caller cancels, and the
+// teardown's RST_STREAM POST stays parked until its own 30 s write timeout has
+// passed. When the handler finally reads, its stream is over: the reset must
+// still have reached the server (the sender giving up does not un-send it).
+func c19HTTPResetAcrossTimeout() *explore.Scenario { return httpResetAcrossTimeout("C19") }
+
+func httpResetAcrossTimeout(prop string) *explore.Scenario {
+	fam := prop + "/http"
+	return &explore.Scenario{
+		Name: prop + "/http/reset-parked-across-its-write-timeout", Family: fam, Prop: prop, Bound: 0, Horizon: time.Hour,
+		Run: func() {
+			old := http.DefaultTransport
+			rt := &c19RT{hosts: map[string]http.Handler{}}
+			http.DefaultTransport = rt
+			defer func() { http.DefaultTransport = old }()
+			w := env.NewWorld()
+			srv := goat.NewServer("srv")
+			srv.RegisterService(&env.ServiceDesc, w)
+			ident := func(s string) (string, error) { return s, nil }
+			y := goat.NewGoatOverHttp(func(id string, rw goat.RpcReadWriter) { srv.Serve(context.Background(), rw) }, ident, goat.WithClock(env.NewClock()))
+			x := goat.NewGoatOverHttp(func(id string, rw goat.RpcReadWriter) {}, ident, goat.WithClock(env.NewClock()))
+			rt.hosts["cli"], rt.hosts["srv"] = x, y
+			cc := goat.NewClientConn(x.NewConnection("srv"), "cli", "srv")
+			vsched.Settle()
+			r := w.Rec("s", "Bidi")
+			release := make(chan struct{})
+			var hctx context.Context
+			var recvErr error
+			w.Handlers["s"] = func(r *env.Rec, ss grpc.ServerStream) error {
+				hctx = ss.Context()
+				<-release
+				for {
+					if recvErr = ss.RecvMsg(new(env.Msg)); recvErr != nil {
+						break
+					}
+				}
+				return status.FromContextError(ss.Context().Err()).Err()
+			}
+			ctx, cancel := context.WithCancel(context.Background())
+			defer cancel()
+			var cs grpc.ClientStream
+			vsched.GoNamed("caller", func() {
+				cs = w.Open(cc, ctx, r)
+				if cs != nil {
+					env.CSend(r, cs, "m0")
+					env.CSend(r, cs, "m1")
+				}
+			})
+			vsched.Quiesce()
+			if cs == nil {
+				vsched.Fail(fam+"|harness", "stream did not open: %v", r.COpenErr)
+				return
+			}
+			vsched.GoNamed("canceller", func() {
+				cancel()
+				cs.RecvMsg(new(env.Msg))
+			})
+			vsched.QuiesceTime() // lets the 30 s reset-write timeout pass while everything is parked
+			close(release)
+			vsched.QuiesceTime()
+			vsched.Obs("elapsed=%v handler returned=%v recvErr=%v ctxDone=%v", vsched.Elapsed(), r.HReturned, recvErr, hctx != nil && hctx.Err() != nil)
+			if r.HStarts == 1 && (!r.HReturned || hctx == nil || hctx.Err() == nil) {
+				vsched.Fail(fam+"|reset-lost", "the caller cancelled; its RST_STREAM POST stayed parked past its 30 s write timeout (the handler was not reading); once the handler read again its context was still live / it never returned: the reset was dropped instead of delivered (elapsed %v); threads: %s", vsched.Elapsed(), threadList())
+			}
+			srv.Stop()
+			x.Cancel()
+			y.Cancel()
+			vsched.QuiesceTime()
+		},
+	}
+}
+
 // c19BlockingRT: the peer's HTTP endpoint accepts the request and does not
 // answer until released (a stalled peer); like net/http's transport it gives
 // up when the request's context ends.
@@ -680,6 +848,45 @@ func c19HTTPIdle(pending string, bound int) *explore.Scenario {
 			var rgot *env.Rpc
 			if pending == "sender" || pending == "both" {
 				vsched.GoNamed("poster", func() { code = post(goh, msg(2)) })
+			}
+			if pending == "write-in-flight-at-tick" {
+				// the connection has been quiet for 3m30 (timeout 4m); a Write then starts and is
+				// still in flight (the peer is slow to answer) when the cleaner ticks at 4m: a
+				// connection with a write in progress is in use, not idle
+				old := http.DefaultTransport
+				brt := &c19BlockingRT{release: make(chan struct{})}
+				http.DefaultTransport = brt
+				defer func() { http.DefaultTransport = old }()
+				clk.Advance(3*time.Minute + 30*time.Second)
+				vsched.Quiesce()
+				wdone := false
+				var werr error
+				vsched.GoNamed("writer", func() {
+					werr = conn.Write(context.Background(), &env.Rpc{Id: 7, Header: &goatorepo.RequestHeader{Method: "/a/B", Source: "d", Destination: "peer"}})
+					wdone = true
+				})
+				vsched.GoNamed("reader", func() { rgot, rerr = conn.Read(context.Background()); rdone = true })
+				vsched.Quiesce()
+				clk.Advance(30 * time.Second) // the 4m tick
+				vsched.Quiesce()
+				if rdone {
+					vsched.Fail(fam+"|in-use-connection-swept", "a Write had been in flight for 30 s when the cleaner ticked (last completed activity 4m ago, timeout 4m): the connection was swept, its reader failed with %v", rerr)
+				}
+				close(brt.release)
+				vsched.Quiesce()
+				if !wdone || werr != nil {
+					vsched.Fail(fam+"|in-use-connection-swept", "the in-flight Write: done=%v err=%v", wdone, werr)
+				}
+				// the peer's answer arrives on the same connection
+				c2 := 0
+				vsched.GoNamed("poster", func() { c2 = post(goh, msg(8)) })
+				vsched.Quiesce()
+				if c2 != http.StatusOK || !rdone || rerr != nil || rgot.GetId() != 8 || len(conns) != 1 {
+					vsched.Fail(fam+"|in-use-connection-swept", "after a Write that was in flight across the tick, the peer's answer: status %d, reader done=%v err=%v, connections announced %d (want the original connection to receive it)", c2, rdone, rerr, len(conns))
+				}
+				goh.Cancel()
+				vsched.Quiesce()
+				return
 			}
 			if pending == "reader-after-abandoned-read" {
 				// three minutes in, a reader gives up (its context ends); no envelope moved, so
